@@ -39,7 +39,7 @@ def gen_model(rng, size="small", feats=None):
         "endtime": p(0.35), "maxdur": p(0.3), "maxstops": p(0.3), "maxdist": p(0.3),
         "attrs": p(0.3), "precedence": p(0.4), "no_startloc": p(0.15), "penalties": p(0.6),
         "activation": p(0.5), "nonmetric": p(0.5), "tight": p(0.5), "user": False, "groups": False, "initial": False,
-        "colocated": False, "one_vehicle": False, "fixed_p": 0.3, "dgroups": p(0.3), "objx": p(0.35), "mult": False,
+        "colocated": False, "one_vehicle": False, "fixed_p": 0.3, "dgroups": p(0.3), "objx": p(0.35), "mult": p(0.3),
     }
     if feats:
         F.update(feats)
